@@ -5,8 +5,8 @@ NEXT GenNext
 CONSTANTS
   Mutation = "none"
   NilDictIsNull = TRUE
-  WriterAddsLength = FALSE
-  WriterEscapesKeys = FALSE
+  WriterAddsLength = TRUE
+  WriterEscapesKeys = TRUE
   OpKinds = {"q", "cm", "w", "Tf", "Tj", "TJ", "'", "dq", "BDC", "B", "B*", "BT", "d", "sc", "unk", "img", "imgE"}
   MaxOps = 3
   DataAlphabet = {69, 73, 32, 10, 13, 120, 47}
